@@ -60,6 +60,48 @@ class _FlattenFStr(ast.NodeTransformer):
         return node
 
 
+class _Enumerate(ast.NodeTransformer):
+    """`for i, x in enumerate(seq): ... x ...`  ->  `for i in range(len(seq)): ... seq[i] ...`  (x not rebound in the body, seq a plain name)"""
+
+    def __init__(self, extra):
+        self.extra = extra
+
+    def visit_FunctionDef(self, node):
+        return node if getattr(self, "_in", False) else self._enter(node)
+
+    def _enter(self, node):
+        self._in = True
+        self.generic_visit(node)
+        self._in = False
+        return node
+
+    def visit_For(self, node):
+        self.generic_visit(node)
+        it, tg = node.iter, node.target
+        if isinstance(it, ast.Call) and isinstance(it.func, ast.Name) and it.func.id == "enumerate" and len(it.args) == 1 and not it.keywords \
+                and isinstance(it.args[0], ast.Name) and isinstance(tg, ast.Tuple) and len(tg.elts) == 2 \
+                and all(isinstance(e, ast.Name) for e in tg.elts) and tg.elts[1].id in self.extra:
+            i, x, seq = tg.elts[0].id, tg.elts[1].id, it.args[0].id
+            body = ast.Module(body=node.body + node.orelse, type_ignores=[])
+            if _stores(body, x) == 0 and _stores(body, i) == 0 and _stores(body, seq) == 0:
+                import copy
+
+                class _S(ast.NodeTransformer):
+                    def visit_Name(self, n):
+                        if n.id == x and isinstance(n.ctx, ast.Load):
+                            return ast.Subscript(value=ast.Name(id=seq, ctx=ast.Load()), slice=ast.Name(id=i, ctx=ast.Load()), ctx=ast.Load())
+                        return n
+
+                    def visit_Lambda(self, n):
+                        return n
+                node.body = [_S().visit(b) for b in node.body]
+                node.orelse = [_S().visit(b) for b in node.orelse]
+                node.target = ast.copy_location(ast.Name(id=i, ctx=ast.Store()), tg.elts[0])
+                node.iter = ast.Call(func=ast.Name(id="range", ctx=ast.Load()),
+                                     args=[ast.Call(func=ast.Name(id="len", ctx=ast.Load()), args=[ast.Name(id=seq, ctx=ast.Load())], keywords=[])], keywords=[])
+        return node
+
+
 class _Subst(ast.NodeTransformer):
     def __init__(self, name, value):
         self.name, self.value, self.n = name, value, 0
@@ -82,6 +124,85 @@ def _stores(node, name):
     return sum(1 for x in ast.walk(node) if isinstance(x, ast.Name) and x.id == name and isinstance(x.ctx, (ast.Store, ast.Del)))
 
 
+def _pure_simple(v):
+    """an expression that can be re-evaluated at every use: names, attributes, subscripts, constants, arithmetic - no calls, no comprehensions"""
+    for x in ast.walk(v):
+        if isinstance(x, (ast.Call, ast.ListComp, ast.SetComp, ast.DictComp, ast.GeneratorExp, ast.Lambda, ast.Await, ast.Yield, ast.YieldFrom,
+                          ast.NamedExpr, ast.JoinedStr)):
+            return False
+    return True
+
+
+def _base_name(t):
+    while isinstance(t, (ast.Subscript, ast.Attribute, ast.Starred)):
+        t = t.value
+    return t.id if isinstance(t, ast.Name) else None
+
+
+def _written_names(st):
+    """names (or bases of subscripts / attributes) a statement may write"""
+    out = set()
+    for x in ast.walk(st):
+        if isinstance(x, (ast.Assign,)):
+            for t in x.targets:
+                for y in ([t] if not isinstance(t, (ast.Tuple, ast.List)) else t.elts):
+                    out.add(_base_name(y))
+        elif isinstance(x, (ast.AugAssign, ast.AnnAssign)):
+            out.add(_base_name(x.target))
+        elif isinstance(x, (ast.For, ast.AsyncFor)):
+            for y in ast.walk(x.target):
+                if isinstance(y, ast.Name):
+                    out.add(y.id)
+        elif isinstance(x, ast.Call) and isinstance(x.func, ast.Attribute) and x.func.attr in ("sort", "fill", "resize", "append", "extend", "put", "itemset"):
+            out.add(_base_name(x.func.value))
+        elif isinstance(x, ast.keyword) and x.arg == "out":
+            out.add(_base_name(x.value))
+    out.discard(None)
+    return out
+
+
+def _multi_inline(stmts, i, nm, value, fn):
+    """substitute a pure extra temporary used several times, when every use follows in this block and nothing it reads is written in between"""
+    reads = {x.id for x in ast.walk(value) if isinstance(x, ast.Name)}
+    total = _loads(fn, nm)
+    seen = 0
+    last = None
+    for j in range(i + 1, len(stmts)):
+        k = _loads(stmts[j], nm)
+        if k:
+            seen += k
+            last = j
+    if seen != total or last is None:
+        return False
+    for j in range(i + 1, last + 1):
+        st = stmts[j]
+        if isinstance(st, (ast.FunctionDef, ast.AsyncFunctionDef, ast.ClassDef, ast.While, ast.For, ast.AsyncFor)) and _loads(st, nm):
+            return False            # a use inside a loop body or nested scope: the value could be re-read after a write
+        w = _written_names(st)
+        if w & reads and j < last:
+            return False
+        if w & reads and j == last:
+            # the last user may write what the temporary reads only if it is a plain statement (reads happen before the store)
+            if not isinstance(st, (ast.Assign, ast.AugAssign, ast.Expr, ast.Return)):
+                return False
+    import copy
+    for j in range(i + 1, last + 1):
+        if _loads(stmts[j], nm):
+            s = _Subst(nm, None)
+            s.value = None
+
+            class _S(ast.NodeTransformer):
+                def visit_Name(self, node):
+                    if node.id == nm and isinstance(node.ctx, ast.Load):
+                        return copy.deepcopy(value)
+                    return node
+
+                def visit_Lambda(self, node):
+                    return node
+            stmts[j] = _S().visit(stmts[j])
+    return True
+
+
 def _inline_block(stmts, fn, extra):
     changed = False
     i = 0
@@ -96,6 +217,10 @@ def _inline_block(stmts, fn, extra):
                 changed |= _inline_block(h.body, fn, extra)
         if isinstance(st, ast.Assign) and len(st.targets) == 1 and isinstance(st.targets[0], ast.Name) and st.targets[0].id in extra:
             nm = st.targets[0].id
+            if _stores(fn, nm) == 1 and _loads(fn, nm) > 1 and _pure_simple(st.value) and _multi_inline(stmts, i, nm, st.value, fn):
+                del stmts[i]
+                changed = True
+                continue
             if _stores(fn, nm) == 1 and _loads(fn, nm) == 1:
                 # the user must be the next statement, skipping over other extra-temporary definitions that do not use it
                 j = i + 1
@@ -144,6 +269,8 @@ def canon(tree, rel):
                     cur = {n for n, _ in e1_names.locals_in_order(c)}
                     extra = cur - refn
                     if extra:
+                        _Enumerate(extra).visit(c)
+                        ast.fix_missing_locations(c)
                         for _ in range(8):
                             if not _inline_block(c.body, c, extra):
                                 break
